@@ -147,11 +147,26 @@ func (c *recursionChecker) check(node schema.Node, types map[string]schema.Type)
 	}
 
 	switch node := node.(type) {
-	// Array might contain no items, so it's optional and should be skipped.
+	// Array might contain no items, so it's optional and should be skipped,
+	// unless "minItems" asks for some: then the items at the first minItems
+	// positions are required like the properties of an object (the last item
+	// describes all further positions).
+	case *schema.ArrayNode:
+		n := requiredItems(node)
+		for i, child := range node.Children() {
+			if uint(i) >= n {
+				break
+			}
+			if err := c.check(child, types); err != nil {
+				return err
+			}
+		}
+		return nil
+
 	// Literal nodes should be skipped 'cause it doesn't contain any fields or
 	// type names.
 	// Mixed node doesn't contain user type.
-	case *schema.ArrayNode, *schema.LiteralNode, *schema.MixedNode:
+	case *schema.LiteralNode, *schema.MixedNode:
 		return nil
 
 	// Special logic for mixed value 'cause it can contain a link to another type.
@@ -176,6 +191,14 @@ func (c *recursionChecker) check(node schema.Node, types map[string]schema.Type)
 	}
 
 	return nil
+}
+
+func requiredItems(node *schema.ArrayNode) uint {
+	c, ok := node.Constraint(constraint.MinItemsConstraintType).(*constraint.MinItems)
+	if !ok {
+		return 0
+	}
+	return c.Value()
 }
 
 func isRequiredKey(node *schema.ObjectNode, key string) bool {
